@@ -438,6 +438,7 @@ func (e *exec) do(op *Op) {
 	if op.N < 0 || op.N >= len(e.tr.Nodes) {
 		return
 	}
+	st.State(e.stackOf(op.N) + ":" + op.K)
 	prop := e.propOf(op.N)
 	attrs := map[string]string{"op": op.K, "stack": e.stackOf(op.N)}
 	mism := func(what string, f string, a ...interface{}) {
